@@ -151,3 +151,31 @@ pub proof fn lemma_pow2_mono(i: nat, n: nat)
 {
     if i < n { lemma_pow2_mono(i + 1, n); lemma_pow2(i); }
 }
+
+pub proof fn lemma_shl_pow2(i: nat)
+    requires i <= 8,
+    ensures (1u32 << i) == pow2(i),
+{
+    lemma_pow2(i);
+    assert((1u32 << 0) == 1) by (bit_vector);
+    assert((1u32 << 1) == 2) by (bit_vector);
+    assert((1u32 << 2) == 4) by (bit_vector);
+    assert((1u32 << 3) == 8) by (bit_vector);
+    assert((1u32 << 4) == 16) by (bit_vector);
+    assert((1u32 << 5) == 32) by (bit_vector);
+    assert((1u32 << 6) == 64) by (bit_vector);
+    assert((1u32 << 7) == 128) by (bit_vector);
+    assert((1u32 << 8) == 256) by (bit_vector);
+}
+
+/// x < 2^i  ==>  x ^ 2^i == x + 2^i   (setting a bit that is known to be clear)
+pub proof fn lemma_xor_add_pow2(x: u32, i: nat)
+    requires i <= 8, x < pow2(i),
+    ensures (x ^ (pow2(i) as u32)) == x + pow2(i), (x ^ 0u32) == x,
+{
+    lemma_shl_pow2(i);
+    let iu: u32 = i as u32;
+    let p: u32 = 1u32 << iu;
+    assert((x ^ p) == x + p) by (bit_vector) requires iu <= 8, p == 1u32 << iu, x < p;
+    assert((x ^ 0u32) == x) by (bit_vector);
+}
